@@ -38,7 +38,7 @@ def _fix(s):
 
 
 def run_supervised(sup, argv, cwd, prefix, rules=None, seed=None, hold_permille=0, hold_maxms=0,
-                   timeout_ms=30000, env=None, tag="t", umask=None, fd9=None, nofile=None):
+                   timeout_ms=30000, env=None, tag="t", umask=None, fd9=None, nofile=None, cpus=None):
     """rules: list of (action, p1, p2, sys, nth, path)"""
     tdir = os.path.join(cwd, ".sup")
     os.makedirs(tdir, exist_ok=True)
@@ -66,6 +66,8 @@ def run_supervised(sup, argv, cwd, prefix, rules=None, seed=None, hold_permille=
         if nofile is not None:
             import resource
             resource.setrlimit(resource.RLIMIT_NOFILE, (nofile, nofile))
+        if cpus:
+            os.sched_setaffinity(0, cpus)
     try:
         r = subprocess.run(cmd, cwd=cwd, capture_output=True, env=e, timeout=timeout_ms / 1000.0 + 30, preexec_fn=pre,
                            close_fds=(fd9 is None))
@@ -98,11 +100,32 @@ def run_supervised(sup, argv, cwd, prefix, rules=None, seed=None, hold_permille=
     return Run(code, trace, so.decode("utf-8", "replace"), se.decode("utf-8", "replace"), meta)
 
 
-def run_plain(argv, cwd, timeout=60, env=None, umask=None):
+def neutral(rng, noprogress=True, workers=True, force=True):
+    """Options and run-time conditions no property's outcome may depend on: (extra flags, -w value or None, cpu set or
+    None).  -w 0 = `as many workers as CPUs`; the cpu set restricts the run to ONE usable CPU."""
+    flags = []
+    if rng.random() < 0.25:
+        flags.append(rng.choice(["-v", "-vv"]))
+    if force and rng.random() < 0.25:
+        flags.append(rng.choice(["-f", "--force"]))
+    if noprogress and rng.random() < 0.3:
+        flags.append("--no-progress")
+    w = "0" if (workers and rng.random() < 0.25) else None
+    cpus = None
+    if rng.random() < 0.3:
+        cpus = {rng.choice(sorted(os.sched_getaffinity(0)))}
+    return flags, w, cpus
+
+
+def run_plain(argv, cwd, timeout=60, env=None, umask=None, cpus=None):
     e = dict(os.environ, RUST_BACKTRACE="0")
     if env:
         e.update(env)
-    pre = (lambda: os.umask(umask)) if umask is not None else None
+    def pre():
+        if umask is not None:
+            os.umask(umask)
+        if cpus:
+            os.sched_setaffinity(0, cpus)
     try:
         r = subprocess.run(argv, cwd=cwd, capture_output=True, env=e, timeout=timeout, preexec_fn=pre)
         return Run(r.returncode, [], r.stdout.decode("utf-8", "replace"), r.stderr.decode("utf-8", "replace"), {})
